@@ -15,7 +15,7 @@ func runC03(r *rt.Run) {
 	r.Describe = describePair
 	p := buildPools(r.Thorough())
 	r.Bounds["pools"] = p.desc
-	r.Rule = "every ordered pair over pools of valid shapes built exhaustively from lattice alphabets (see C02); A.contains(B) and B.contains(A) each compared with exact containment; two index configurations and a third realisation with both operands obtained through Move from r-tree-indexed sources, and a fourth scaled by 2^-30; non-trivial = container's bounding box covers the other's"
+	r.Rule = "every ordered pair over pools of valid shapes built exhaustively from lattice alphabets (see C02); A.contains(B) and B.contains(A) each compared with exact containment; two index configurations and a third realisation with both operands obtained through Move from r-tree-indexed sources, a fourth scaled by 2^-30 and a fifth small and far away (step 2^-12 at 2^19); non-trivial = container's bounding box covers the other's"
 	r.Assume = []string{"valid operands (simple rings, holes inside) on small dyadic coordinates", "reference: every boundary/skeleton segment of B inside A by exact 1-D decomposition, plus one interior sample per hole of A (verif/mc/exact)"}
 	one := func(a, b *shp, w *rt.Worker) {
 		cur := &curPair{"contains", a.E, b.E}
@@ -38,6 +38,12 @@ func runC03(r *rt.Run) {
 				return pairCase("contains", a.E, b.E, ident, "alt"), fmt.Sprint(want), fmt.Sprint(got2)
 			})
 		}
+		if got5 := libContains(a.G5, b.G5); got5 != got {
+			w.Fail("translation-dependence", func() (rt.Case, string, string) {
+				return pairCase("contains", a.E, b.E, ident, "far-fine"), fmt.Sprint(want), fmt.Sprint(got5)
+			})
+		}
+		w.Evals++
 		if got4 := libContains(a.G4, b.G4); got4 != got {
 			w.Fail("scale-dependence", func() (rt.Case, string, string) {
 				return pairCase("contains", a.E, b.E, ident, "tiny"), fmt.Sprint(want), fmt.Sprint(got4)
